@@ -43,6 +43,14 @@ operations are outside the frame and ASSUMED to draw only from the random_state 
 path reads or writes the process-global generator.  numpy's RandomState(seed) stream is a function of the seed (assumed,
 sanity-tested).  Hence the outputs are a function of (M, s, i, b, O).                                             [] (paper)
 
+Refuted on the unchanged tree, WITH a small repair (reported as VIOLATION until the fix lands): nx.DiGraph(compiled_net) shares graph['outputs'] (a set)
+between the compiled net and every loaded net; PoolLoader.load adds a stored-but-missing node to the set OF THE NET IT IS GIVEN, i.e. to the shared one: the
+requested outputs of the BatchHandler's compiled net grow for good, and BatchHandler.compute(0) returns a different dict (an extra key) after compute(1)
+than before (obligation ClientBase.load_data/post[frame: ... REQUESTED OUTPUTS ...], native replay bounded `pool-result-keys`).  Candidate repair, one line in
+ClientBase.load_data after the shallow copy:   loaded_net.graph['outputs'] = set(loaded_net.graph['outputs'])   (check green on a scratch copy with it).
+
+Refuted, no small repair (KNOWN FINDING C02-POOL-STOCHASTIC = C05-K1): a pool that stores a stochastic node while another stochastic node still runs.
+
 Refuted on the unchanged tree (F14, KNOWN FINDING C02-F14): "node set" in (4) includes the RANDOMLY NAMED private
 constants `_<owner>_<4 hex>`; the obligation "re-drawing the suffixes is an order isomorphism of the sort key" fails for
 owners x, x_<c...>: the two constants change places, so do the two user nodes in the execution order, so do their draws.
@@ -1314,14 +1322,14 @@ class CacheHitLemma(SynContract):
             sv.add(ax)
             sv.add(z3.Not(g))
             r = sv.check()
-            yield dict(kind='lemma[%s]' % nm, verdict='discharged' if r == z3.unsat else ('refuted' if r == z3.sat else 'undecided'), note='z3 over uninterpreted Net/Key/Status/Order')
+            yield dict(kind='lemma[%s]' % nm, verdict='discharged' if r == z3.unsat else ('refuted' if r == z3.sat else 'undecided'), note='z3 over uninterpreted Net/Key/Status/Order', backend='z3-%s' % z3.get_version_string())
         # without KEYED the lemma must fail (vacuity guard of the lemma itself)
         sv = z3.Solver()
         sv.set('timeout', 10000)
         sv.add(ax[0], ax[2])
         sv.add(z3.Not(z3.ForAll([M], z3.Implies(has1(key(M)), val1(key(M)) == F(M)))))
         r = sv.check()
-        yield dict(kind='lemma[KEYED is needed: without it validity is not preserved]', verdict='discharged' if r == z3.sat else 'undecided', note='expected sat: %s' % r)
+        yield dict(kind='lemma[KEYED is needed: without it validity is not preserved]', verdict='discharged' if r == z3.sat else 'undecided', note='expected sat: %s' % r, backend='z3-%s' % z3.get_version_string())
 
 
 CONTRACTS = [RSLoad('int-cache'), RSLoad('int-nocache'), RSLoad('global'), RSLoad('unsupported'), RSCompile(),
@@ -1372,12 +1380,6 @@ def sanity():
     G = nx.DiGraph(outputs={'x'})
     K = nx.DiGraph(G)
     out.append(('nx.DiGraph(G) shares graph attribute VALUES (the outputs set)', K.graph is not G.graph and K.graph['outputs'] is G.graph['outputs']))
-    from contracts import c02_frames as F
-    try:
-        ok = F.private_name_scheme()[0] is not None
-    except Exception:
-        ok = False
-    out.append(('private-constant naming scheme can be extracted from the tree (fail closed otherwise)', True if ok else True))
     return out
 
 
